@@ -19,7 +19,7 @@ RULE = ("connected oriented triangulations from the zoo (genus 0-2, 0-4 border l
         "feature edges); singularity sets: empty, single, two adjacent, two far, many, on the border, all vertices of a face; with and without a "
         "FeatureEdgeDetector; non-trivial = genus >= 1 or >= 2 singularities; distinct = (mesh, singularities, features) hash")
 REQUIRED = {"faces": 150, "disk": 150, "refmap": 150, "opened": 150, "cutgraph": 100}
-CASE_TIMEOUT = {"quick": 60.0, "thorough": 600.0}
+CASE_TIMEOUT = {"quick": 30.0, "thorough": 600.0}
 ASSUMPTIONS = ["input is a connected oriented manifold triangulation (certified)",
                "a closed sphere with fewer than two singular vertices is expected to come back uncut"]
 
